@@ -4,6 +4,7 @@ import (
 	"context"
 	"errors"
 	"fmt"
+	"os"
 	"sort"
 	"strings"
 	"sync"
@@ -66,6 +67,9 @@ func genDagCase(c *simrt.Choices, maxN int) *dagCase {
 	cs.N = n
 	shapes := []string{"random", "chain", "outtree", "intree", "layers", "diamond", "independent", "vees"}
 	cs.Shape = shapes[c.Choose(len(shapes), "shape")]
+	if f := os.Getenv("SIM_FORCE_SHAPE"); f != "" {
+		cs.Shape = f
+	}
 	add := func(dep, dependant int) { cs.Edges = append(cs.Edges, [2]int{dep, dependant}) }
 	switch cs.Shape {
 	case "chain":
